@@ -89,6 +89,19 @@ def run(ck):
             h.append(l)
         hist.append(h); ck.count_distinct(("avl", tuple(h)))
     ck.kcompare("avl", exe, "c06", hist, corpus_prefix="avl", what="ZixTree under allocation faults differs from the model")
+    # ---- file_equals: every pattern of refused page requests (none, both, only the first, only the second)
+    srcs15 = ["h_c15.c"] + [os.path.join(REPO, "src", f) for f in ["posix/filesystem_posix.c", "system.c", "errno_status.c", "filesystem.c", "path.c", "string_view.c", "allocator.c", "posix/system_posix.c"]]
+    exe = ck.cc("h_c15", srcs15)
+    if not exe: return
+    s15 = os.path.join(ck.work, "fs15c07"); os.makedirs(s15, exist_ok=True)
+    sp = ck.write_script("page.script", ["page"])
+    rc, out, err = ck.run_impl(exe, sp, [s15])
+    page = int(out[0].split("=")[1]) if out else 4096
+    lines = []
+    for la, lb, d in [(0, 0, -1), (1, 1, -1), (1, 1, 0), (512, 512, 511), (513, 513, -1), (page, page, -1), (page + 1, page + 1, page), (3 * page, 3 * page, 2 * page), (700, 701, -1)]:
+        for al in ("ok", "fail", "fail0", "fail1"):
+            lines.append("feq %d %d %d 0 %s" % (la, lb, d, al)); ck.count_distinct(("feq", lines[-1])); ck.hist("feq-" + al)
+    ck.kcompare("feq", exe, "c15", [lines], keep_head=0, impl_args=[s15], model_args=[str(page)], corpus_prefix="c15", what="file_equals under refused page allocations differs from the model")
     # ---- functions returning strings / statuses: implementation-only oracle over every fault index
     srcs = ["h_c07.c"] + [os.path.join(REPO, "src", f) for f in ["posix/filesystem_posix.c", "system.c", "errno_status.c", "filesystem.c", "path.c", "string_view.c", "allocator.c",
                                                                   "posix/system_posix.c", "posix/environment_posix.c", "ring.c"]]
